@@ -131,14 +131,17 @@ extern "C" void harness()
 	}
 	else if(op == 3) {                          // copy-assign into a non-empty list: strong guarantee for the destination
 		CL * d = new CL(); ListModel dm{}; ListModel dm2{};
+		if(vf_choose(2)) {                      // ... or into an EMPTY one (fresh): the guarantee is the same, and the destination stays usable
 		cl_append(*d, 70u); dm.ids[dm.n++] = 70u;
 #if CLASS == 3
 		cl_append2(*d, 71u); dm2.ids[dm2.n++] = 71u;
 #endif
+		}
 		int before = g_live_cb;
 		bool failed = with_faults([&]() { *d = *l; });
 		if(failed) { check_list(*d, dm, 410); check_list2(*d, dm2, 411); vf_assert(g_live_cb == before, 412); vf_cover(COV_STRONG_OP_FAILED); }
 		else { check_list(*d, m, 413); check_list2(*d, m2, 414); }
+		{ ListModel & cur = failed ? dm : m; ListModel saved = cur; if(cur.n < MAXN) { cl_append(*d, 91u); cur.ids[cur.n++] = 91u; check_list(*d, cur, 425); } if(! failed) m = saved, m.n = saved.n; }   // the destination stays fully usable
 		delete d;
 		vf_assert(g_live_cb == base_cb, 415);
 	}
